@@ -36,6 +36,7 @@ def _child_main(path, buffer, req_w, go_r, res_w, scheduled):
     import tola.fasta.index as ix
 
     events = {"written": [], "replaced": []}
+    lines_run = set()
     base = str(path)
     cache_paths = {base + ".fai", base + ".agp"}
 
@@ -133,6 +134,7 @@ def _child_main(path, buffer, req_w, go_r, res_w, scheduled):
                 w = seen[code] = code.co_filename == ix.__file__ and code.co_name not in DENY
             if not w:
                 return mon.DISABLE
+            lines_run.add((code.co_name, line))
             yp(f"{code.co_name}:{line}")
 
         mon.register_callback(TOOL, mon.events.LINE, on_line)
@@ -143,9 +145,9 @@ def _child_main(path, buffer, req_w, go_r, res_w, scheduled):
         fi = ix.FastaIndex(Path(path), buffer)
         fi.auto_load()
         idx, asm = result_of(fi)
-        res = ("ok", idx, asm, sorted(set(events["written"]) | set(events["replaced"])))
+        res = ("ok", idx, asm, sorted(set(events["written"]) | set(events["replaced"])), sorted(lines_run))
     except BaseException as e:  # noqa: BLE001 - a loud failure is an allowed outcome
-        res = ("exc", type(e).__name__, str(e)[:200], sorted(set(events["written"]) | set(events["replaced"])))
+        res = ("exc", type(e).__name__, str(e)[:200], sorted(set(events["written"]) | set(events["replaced"])), sorted(lines_run))
     if scheduled:
         mon.set_events(TOOL, 0)
     if scheduled:
@@ -206,6 +208,12 @@ class Proc:
                 break
             data += c
         self.result = pickle.loads(data) if data else ("died",)
+        if len(self.result) >= 5 and self.result[0] in ("ok", "exc"):
+            from vf.mon import cover
+
+            for name, line in self.result[4]:
+                cover.add_external(name, line)
+            self.result = self.result[:4]
         os.waitpid(self.pid, 0)
         self.done = True
         self.loc = None
